@@ -690,6 +690,83 @@ def nullwalk(run, fx):
         run.held('LINEBREAK', 'walks in positionSlots stop at the end of the chain', fn.where(), '%d dereferences of %d walking variable(s), each under a non-null test' % (n, len(walkers)))
 
 
+def lineend_exec(run, fx, rule='LINEENDPAIR', maxn=4):
+    """LINEENDPAIR by bounded execution (rules/ordint.py): Segment::addLineEnd followed by Segment::delLineEnd of the marker it returned is
+    interpreted on every stream of 1..maxn slots, the marker put in front of every slot (a line that starts anywhere in the segment) or
+    behind the last one (null argument).  While the marker is in, walking back from the slot behind it reaches the marker and then the
+    slot that was in front (prev is kept: the justification pass that runs on the line sees its left context); after the marker is
+    removed the stream is exactly what it was -- next from m_first visits every slot once, prev is its exact inverse -- and the marker,
+    and only the marker, has been handed to freeSlot."""
+    from . import ordint as O
+    add, dele = fx.one('graphite2::Segment::addLineEnd'), fx.one('graphite2::Segment::delLineEnd')
+    PS, PG = 'graphite2::Slot::', 'graphite2::Segment::'
+    srec = fx.record('graphite2::Slot')
+    inst = 'a line-end marker goes in and out without a trace (addLineEnd + delLineEnd interpreted)'
+
+    def mkslot(k):
+        s_ = O.Rec()
+        for f in srec['fields']:
+            s_[PS + f['n']] = O.Ptr(None) if f.get('ptr') else 0
+        s_['#'] = k
+        return s_
+    cases = 0
+    try:
+        for n in range(1, maxn + 1):
+            for at in list(range(n)) + [None]:
+                slots = [mkslot(i) for i in range(n)]
+                for i, sl in enumerate(slots):
+                    sl[PS + 'm_next'] = O.Ptr(slots[i + 1]) if i + 1 < n else O.Ptr(None)
+                    sl[PS + 'm_prev'] = O.Ptr(slots[i - 1]) if i else O.Ptr(None)
+                    sl[PS + 'm_before'] = sl[PS + 'm_after'] = sl[PS + 'm_original'] = i
+                seg = O.Rec({PG + 'm_first': O.Ptr(slots[0]), PG + 'm_last': O.Ptr(slots[-1]), PG + 'm_face': O.Ptr(O.Rec({'#face': 1})), PG + 'm_silf': O.Ptr(O.Rec({'#silf': 1}))})
+                fresh, freed = [], []
+
+                def newslot(I, f, e, obj, a, fresh=fresh):
+                    s_ = mkslot(100 + len(fresh))
+                    fresh.append(s_)
+                    return O.Ptr(s_)
+                nat = {'graphite2::Segment::newSlot': newslot, 'graphite2::Segment::freeSlot': lambda I, f, e, obj, a, freed=freed: freed.append(I.rv(a[0]).rec),
+                       'graphite2::Segment::silf': lambda I, f, e, obj, a: O.Ptr(O.Rec({'#silf': 1})), 'graphite2::Silf::endLineGlyphid': lambda I, f, e, obj, a: 7,
+                       'graphite2::Face::glyphs': lambda I, f, e, obj, a: O.Rec({'#gc': 1}), 'graphite2::GlyphCache::glyphSafe': lambda I, f, e, obj, a: O.Ptr(None),
+                       'graphite2::Slot::setGlyph': lambda I, f, e, obj, a: None}
+                desc = '%d slot(s), marker %s' % (n, 'in front of slot #%d' % at if at is not None else 'behind the last slot')
+                cases += 1
+                it = O.Interp(fx, natives=nat)
+                it.MAX_STEPS = 4000
+                try:
+                    m = it.call(add, seg, [O.Ptr(slots[at]) if at is not None else O.Ptr(None)])
+                    if not isinstance(m, O.Ptr) or m.rec is None or len(fresh) != 1 or m.rec is not fresh[0]:
+                        return cases, '%s: addLineEnd does not return the marker it made' % desc
+                    mk = m.rec
+                    if at is not None:
+                        # walking back from the slot behind the marker: marker, then the old predecessor
+                        if slots[at][PS + 'm_prev'].rec is not mk or mk[PS + 'm_next'].rec is not slots[at]:
+                            return cases, '%s: the marker is not linked in front of the slot (prev of #%d / next of the marker)' % (desc, at)
+                        want = slots[at - 1] if at else None
+                        if mk[PS + 'm_prev'].rec is not want:
+                            return cases, ('%s: the marker\'s prev is %s, expected %s -- the way back from the line into the text in front of it is cut, and delLineEnd restores that null into slot #%d'
+                                           % (desc, 'null' if mk[PS + 'm_prev'].rec is None else '#%d' % mk[PS + 'm_prev'].rec['#'], 'null' if want is None else '#%d' % want['#'], at))
+                    else:
+                        if slots[-1][PS + 'm_next'].rec is not mk or mk[PS + 'm_prev'].rec is not slots[-1]:
+                            return cases, '%s: the marker is not linked behind the last slot' % desc
+                    it2 = O.Interp(fx, natives=nat)
+                    it2.MAX_STEPS = 4000
+                    it2.call(dele, seg, [O.Ptr(mk)])
+                except O.Violation as v:
+                    return cases, '%s: %s (%s)' % (desc, v.what, v.loc)
+                if len(freed) != 1 or freed[0] is not mk:
+                    return cases, '%s: delLineEnd hands %s to freeSlot, expected the marker alone' % (desc, ['#%d' % f_['#'] for f_ in freed if f_ is not None])
+                for i, sl in enumerate(slots):
+                    nx, pv = sl[PS + 'm_next'].rec, sl[PS + 'm_prev'].rec
+                    wn, wp = (slots[i + 1] if i + 1 < n else None), (slots[i - 1] if i else None)
+                    if nx is not wn or pv is not wp:
+                        return cases, ('%s: after the marker is removed slot #%d has next %s and prev %s, expected %s and %s -- prev is no longer the inverse of next'
+                                       % (desc, i, 'null' if nx is None else '#%d' % nx['#'], 'null' if pv is None else '#%d' % pv['#'], 'null' if wn is None else '#%d' % wn['#'], 'null' if wp is None else '#%d' % wp['#']))
+    except AnalysisBroken as ex:
+        raise
+    return cases, None
+
+
 def run(run):
     vm = R.get_vm(run)
     fx = vm.fx
@@ -706,6 +783,16 @@ def run(run):
             run.held('NOMUTPOS', 'the base chain justify walks is finite and complete (linkClusters interpreted)', lk_.where(), '%d abstract executions' % cases_)
     except AnalysisBroken as ex:
         run.broken('NOMUTPOS', 'the base chain justify walks is finite and complete (linkClusters interpreted)', str(ex), '')
+    inst_le = 'a line-end marker goes in and out without a trace (addLineEnd + delLineEnd interpreted)'
+    try:
+        cases_, bad_ = lineend_exec(run, fx)
+        ale_ = fx.one('graphite2::Segment::addLineEnd')
+        if bad_:
+            run.violated('LINEENDPAIR', inst_le, ale_.where(), bad_)
+        else:
+            run.held('LINEENDPAIR', inst_le, ale_.where(), '%d abstract executions' % cases_)
+    except AnalysisBroken as ex:
+        run.broken('LINEENDPAIR', inst_le, str(ex), '')
     poolsize(run, fx)
     poolcount(run, fx)
     from . import posexec
